@@ -1182,6 +1182,15 @@ func (x *Unit) atCall(st *State, pc *preparedCall, shortName, funText string) {
 			c.names[k] = v
 		}
 		c.args = args
+		if cl.AtAction == "havoc" {
+			x.note(fmt.Sprintf("interference at call %s in %s: %s may have been changed by other goroutines (havocked)", cl.AtName, x.name, cl.Text))
+			for _, m := range cl.Mods {
+				if lv := x.specLV(st, m, c); lv != nil {
+					x.havocLV(st, lv)
+				}
+			}
+			continue
+		}
 		g := x.specEval(st, cl.Expr, c)
 		if cl.AtAction == "assert" {
 			x.oblige(st, "at", fmt.Sprintf("call %s:%s", cl.AtName, clauseLabel(cl, i)), g.T, pc.call)
